@@ -216,6 +216,7 @@ def scanTok (term : Option UInt8) : Bytes → Res (Bytes × Bytes)
     if c = 44 ∨ c = 32 ∨ c = 9 then .ok ([], c :: r)
     else if c = 59 then .reject                          -- semicolon in parameter value
     else if c = 0 then .reject
+    else if c = 34 then .reject                          -- quotation mark inside unquoted value (fix F35)
     else (scanTok term r).map fun x => (c :: x.1, x.2)
 
 /-- "no matching parameter name" branch (gen_auth.c:562–582).  `inQ` = inside the
